@@ -34,6 +34,10 @@ type RtRefreshManager struct {
 	ctx      context.Context
 	cancel   context.CancelFunc
 	refcount sync.WaitGroup
+	// closeLk orders refcount.Add in Refresh before refcount.Wait in Close:
+	// once closed is set, Refresh no longer adds to the wait group.
+	closeLk sync.RWMutex
+	closed  bool
 
 	// peerId of this DHT peer i.e. self peerId.
 	h         host.Host
@@ -97,6 +101,9 @@ func (r *RtRefreshManager) Start() {
 
 func (r *RtRefreshManager) Close() error {
 	r.cancel()
+	r.closeLk.Lock()
+	r.closed = true
+	r.closeLk.Unlock()
 	r.refcount.Wait()
 	return nil
 }
@@ -108,14 +115,27 @@ func (r *RtRefreshManager) Close() error {
 // error and close. The channel is buffered and safe to ignore.
 func (r *RtRefreshManager) Refresh(force bool) <-chan error {
 	resp := make(chan error, 1)
-	r.refcount.Go(func() {
+	// Refresh may race with Close. A WaitGroup must not be added to while (or
+	// after) Close waits on it, so take the request into the wait group under
+	// closeLk, and answer right away once the manager is closed.
+	r.closeLk.RLock()
+	if r.closed {
+		r.closeLk.RUnlock()
+		resp <- r.ctx.Err()
+		close(resp)
+		return resp
+	}
+	r.refcount.Add(1)
+	r.closeLk.RUnlock()
+	go func() {
+		defer r.refcount.Done()
 		select {
 		case r.triggerRefresh <- &triggerRefreshReq{respCh: resp, forceCplRefresh: force}:
 		case <-r.ctx.Done():
 			resp <- r.ctx.Err()
 			close(resp)
 		}
-	})
+	}()
 
 	return resp
 }
